@@ -183,7 +183,7 @@ pub fn run(ctx: &Ctx) {
         }
     }
     // messages longer than 64 KiB (16-bit length boundaries inside hashing / buffering code)
-    for (k, len) in [65_535usize, 65_536, 65_537, 70_001, 131_072, 200_000].iter().enumerate() {
+    for (k, len) in [65_535usize, 65_536, 65_537, 70_001, 131_070, 131_071, 131_072, 196_605, 196_607, 200_000].iter().enumerate() {
         for h in [ALL_HASHES[k % 6], ALL_HASHES[(k + 3) % 6]] {
             eight.push(SignCase { hash: h, levels: vec![(4, 2), (8, 2)], seed: gen::SeedSpec::Random(k as u64), counter: k as u64, counter_class: "msg-64k".into(), msg: gen::MsgSpec { len: *len, tag: k as u64 } });
         }
@@ -224,12 +224,64 @@ pub fn run(ctx: &Ctx) {
         pass(format!("seed-from-array|{}", c.hash.name()), true)
     });
 
+    // messages that are themselves objects of the scheme: the key's own LMS public keys (root and
+    // the children of the current chain), its HSS public key, its private key blob, a signature
+    let mut selfref: Vec<(HashId, Vec<Level>, u64)> = Vec::new();
+    for (hi, h) in ALL_HASHES.iter().enumerate() {
+        for (si, shape) in [vec![(4u32, 2u32), (8u32, 2u32)], vec![(8, 2), (4, 2), (2, 2)], vec![(8, 5)]].iter().enumerate() {
+            let total: u64 = 1u64 << shape.iter().map(|l| l.1).sum::<u32>();
+            for counter in [0u64, total / 2 + 1] {
+                if (hi + si) % 2 == 0 || counter == 0 {
+                    selfref.push((*h, shape.clone(), counter));
+                }
+            }
+        }
+    }
+    ctx.enumerate("self_referential_messages", selfref.len() as u64, false, |i| selfref[i as usize].clone(), |(h, levels, counter): &(HashId, Vec<Level>, u64)| {
+        use crate::refmodel::hss;
+        let n = h.n();
+        let m = compat_model(ctx, *h);
+        let seed = gen::expand(0x5e1f, n);
+        let blob = hss::private_key_blob(levels, *counter, &seed);
+        let pk = hss::public_key(&m, levels, &seed);
+        let probe = hss::sign(&m, levels, &seed, *counter as u128, b"probe");
+        let mut msgs: Vec<(String, Vec<u8>)> = vec![("root-lms-public-key".into(), pk[4..].to_vec()), ("hss-public-key".into(), pk.clone()), ("private-key-blob".into(), blob.clone()), ("a-signature".into(), probe.clone())];
+        if let Some(p) = hss::parse_signature(&m, &probe, 8) {
+            for (i, (s, e)) in p.pub_ranges.iter().enumerate() {
+                msgs.push((format!("child-lms-public-key-{}", i + 1), probe[*s..*e].to_vec()));
+            }
+        }
+        for (name, msg) in &msgs {
+            let sig = match libapi::sign(*h, msg, &blob, Cb::Accept, None).0 {
+                Out::Ok(s) => s,
+                o => return fail(format!("sign-{} self-referential", o.kind()), format!("sign {} for the message '{}' ({} counter {}): {:?}", o.kind(), name, levels_str(levels), counter, o.panic_msg())),
+            };
+            for (e, r) in libapi::verify_all(*h, msg, &sig, &pk).iter().enumerate() {
+                if !r.is_ok() {
+                    return fail(format!("verify-err self-referential entry={}", e), format!("the library rejects ({}) its own signature over the message '{}' ({} {} counter {})", r.kind(), name, h.name(), levels_str(levels), counter));
+                }
+            }
+            if !hss::verify(&m, msg, &sig, &pk) {
+                return fail("model-verify-rejects self-referential", format!("reference verifier rejects the signature over '{}'", name));
+            }
+        }
+        pass(format!("{}|L{}", h.name(), levels.len()), true)
+    });
+
+    // messages whose LM-OTS digest has a structured content (zero runs, repeated bytes, aligned
+    // zero / equal words, leading or trailing 0x00 / 0xff), found by a targeted search
+    let sc = structured_cases(ctx);
+    ctx.enumerate("structured_digests", sc.len() as u64, false, |i| sc[i as usize].clone(), |c: &StructCase| check_structured(ctx, c));
+    ctx.require_class("structured_digests", "sha256_256|w8|four-equal-neighbours");
+    ctx.require_class("structured_digests", "sha256_192|w4|equal-word-aligned");
+    ctx.require_class("structured_digests", "shake256_128|w1|leading-two-zero-bytes");
+
     // valid signatures over messages whose digest has an extreme checksum (targeted search against
     // the real (I, q, C) of leaf 0 of a small key): signer and verifier at the ends of the range
     let mut ext: Vec<ExtremeCase> = Vec::new();
     for h in ALL_HASHES {
         for w in [1u32, 2, 4, 8] {
-            let cands: u64 = if h.n() == 32 && w <= 2 { ctx.tier.pick(1 << 24, 1 << 26) } else { ctx.tier.pick(1 << 18, 1 << 21) };
+            let cands: u64 = if h.n() == 32 && w <= 2 { ctx.tier.pick(1 << 24, 1 << 26) } else { ctx.tier.pick(1 << 22, 1 << 24) };
             let n = h.n();
             let seed = gen::expand(0xe7, n);
             let levels = vec![(w, 2u32)];
